@@ -7,7 +7,7 @@ CONFIG = {
         "name": "sim", "modules": ["Base.NumOps", "Model.Turn", "Model.Sim", "Model.SimCheck"],
         "check": "check_case", "monitor": "monitor_c11", "model_out": "monitor_detail",
         "case_type": "case", "ops_path": None, "mismatch_is_violation": False,
-        "n_quick": 300, "n_thorough": 12000, "shard": 100,
+        "n_quick": 900, "n_thorough": 12000, "shard": 150,
     }],
     "rule": "scripted battles on the REAL simulation.Simulation: 1-4 registered harness characters (4 kinds: speeds, SP "
             "costs, target types), 1-5 harness enemies (HP 50-400, speeds incl. ties), 5-14 content scripts of engine calls "
